@@ -455,8 +455,14 @@ func c24Case(c *kit.Ctx, t testing.TB, ci int, cv protocol.ConsensusVersion) {
 		okRef, why, allowed := c24Judge(proto, blk, sinkStart, true)
 		validated, verr := u.validate(blk, false)
 		c.Eval(1)
-		if verr == nil && !okRef {
-			c.Violation("block-breaking-payout-limits-validated", map[string]any{"case": caseID, "which": "the generator's own block", "reference": why,
+		if !okRef {
+			// The evaluator in generate mode is the code under test too: a block it proposes must respect the limits
+			// ("a block's proposer payout never exceeds ...") whether or not validators would later reject it.
+			key := "generated-block-breaks-payout-limits"
+			if verr == nil {
+				key = "block-breaking-payout-limits-validated"
+			}
+			c.Violation(key, map[string]any{"case": caseID, "which": "the generator's own block", "validated": verr == nil, "reference": why,
 				"fees_collected": blk.FeesCollected.Raw, "payout": blk.ProposerPayout().Raw, "bonus": blk.Bonus.Raw, "allowed": allowed.String(), "block": fmt.Sprintf("%x", protocol.Encode(&blk))})
 			return
 		}
